@@ -249,6 +249,7 @@ def one_call(ex, limexp, n, nres):
     s_new = sn.real_var('s_new')
 
     def harness():
+        del sn.DENOMINATORS[:]
         with tr.traced(), sn.abstract_division():
             d = ex.Dea(limexp=limexp)
             tab = make_tab(len(d.epstab), 't')
@@ -268,7 +269,7 @@ def one_call(ex, limexp, n, nres):
             except (IndexError, ValueError, TypeError, ZeroDivisionError) as e:
                 r, exc = None, e
             return dict(r=r, exc=exc, n_out=d._n, nres_out=d._nres, log=list(tab.log), shifted=bool(shifted),
-                        size=len(tab), limexp=d.limexp)
+                        size=len(tab), limexp=d.limexp, denoms=list(sn.DENOMINATORS))
     explorer = sn.Explorer(harness, max_paths=20000, timeout_ms=20000, catch=())
     for p in explorer.paths():
         results.append(p)
@@ -324,6 +325,10 @@ def dea_state(job, ex, limexp, n, nr):
                           z3.And(at >= eps5 * rt, at >= -eps5 * rt), p.conds(),
                           dict(key='C14:Dea:abserr-floor:n=%d' % n if n < 2 else 'C14:Dea:abserr-floor',
                                kind='dea_floor', limexp=limexp, n=n, nres=nr, state=[n, nr]))
+        # "returns finite values for finite input": no division by a table difference that can be zero on this path
+        for dterm in res.get('denoms', []):
+            job.prove('denominator != 0 n=%d nres=%d' % (n, nr), dterm != 0, p.conds(),
+                      dict(key='C14:Dea:division-by-zero', kind='dea_div', limexp=limexp, n=n, nres=nr, state=[n, nr]))
         job.confirm('path-safe n=%d nres=%d' % (n, nr), not bads)
         for b in bads:
             site = b.split('(')[0]
@@ -360,7 +365,7 @@ def postprocess(results):
     for r in results:
         keep = []
         for c in r['cex']:
-            if c.get('kind') in ('dea_edge', 'dea_floor') and tuple(c['state']) not in reach.get(c['limexp'], ()):
+            if c.get('kind') in ('dea_edge', 'dea_floor', 'dea_div') and tuple(c['state']) not in reach.get(c['limexp'], ()):
                 continue
             keep.append(c)
         r['cex'] = keep
@@ -423,6 +428,8 @@ def families(seed=0):
         'two-transients': lambda i: 1 + 0.5 ** i + 0.3 * (-0.7) ** i,
         'harmonic-partial': lambda i: float(sum(1.0 / (j * j) for j in range(1, i + 2))),
         'zeros': lambda i: 0.0,
+        'zeros-between': lambda i: [1.0, 0.0, 0.0, 1.0, 0.0, 0.5, 0.25, 0.0, 0.0, 2.0][i % 10],
+        'leading-zeros': lambda i: 0.0 if i < 2 else 1.0 + 0.5 ** i,
         'negative-geometric': lambda i: -1 - 2.0 ** -i,
         'negative-slow': lambda i: -3 + 0.95 ** i,
         'negative-alternating': lambda i: -2 + (-0.6) ** i,
@@ -452,6 +459,8 @@ def concrete_failures(limexp, length=200):
                 break
             if d._n > L - 1:
                 out.setdefault('n_out>limexp-1', (name, i, '_n=%d after term %d (limexp=%d)' % (d._n, i, L)))
+            if not (np.isfinite(r) and np.isfinite(e)):
+                out.setdefault('non-finite', (name, i, 'term %d: result %r abserr %r for a finite input sequence' % (i, r, e)))
             if i >= 2 and np.isfinite(r) and not (e >= 5 * eps * abs(r)):
                 out.setdefault('abserr-floor', (name, i, 'term %d: result %r abserr %r < 5*eps*|result|' % (i, r, e)))
     return out
@@ -510,6 +519,13 @@ def replay(cex):
             if den != 0 and abs(r - float(num / den)) > 1e-6 * (1 + abs(float(num / den))):
                 return True, 'EpsAlg value after term %d on %r is %r, Shanks entry is %r' % (m, seq, r, float(num / den))
         return False, 'EpsAlg equals the Shanks entry on the candidate sequences'
+    if kind == 'dea_div':
+        limexp = cex.get('limexp') or cex['config']['limexp']
+        fails = concrete_failures(limexp)
+        if 'non-finite' in fails:
+            fam, i, detail = fails['non-finite']
+            return True, 'Dea(limexp=%d) on family %s: %s' % (limexp, fam, detail)
+        return None, 'a division by a possibly vanishing table difference is reachable in the control graph but no sequence family produced a non-finite value'
     if kind in ('dea_edge', 'dea_floor'):
         limexp = cex.get('limexp') or cex['config']['limexp']
         fails = concrete_failures(limexp)
